@@ -36,11 +36,13 @@ theorem prod_eq (x : List α) : Cv.Src.C04Loops.prod x = prodL x := rfl
 /-- `norm`: `dot(x, x).sqrt()` with the unrolled kernel `dot8`. -/
 theorem norm_eq (x : List α) : Cv.Src.C04Loops.norm x = normL x := rfl
 
-/-- `logsumexp` as the source computes it: the model's formula over the iterator sum (seed `-0.0`). -/
-theorem logsumexp_src (isNaN : α → Bool) (nan : α) (x : List α) :
-    Cv.Src.C04Loops.logsumexp isNaN nan x =
-      (let m := maxL isNaN nan x
-       Cv.Transc.ln (Cv.iterSum (x.map fun v => Cv.Transc.exp (v - m))) + m) := rfl
+/-- `logsumexp` as the source computes it (F55): the empty slice returns `f64::NEG_INFINITY` (the parameter `ninf`) before anything
+else; otherwise the model's formula over the iterator sum (seed `-0.0`). -/
+theorem logsumexp_src (isNaN : α → Bool) (nan : α) (ninf : α) (x : List α) :
+    Cv.Src.C04Loops.logsumexp isNaN nan ninf x =
+      (if x.isEmpty then ninf else
+        (let m := maxL isNaN nan x
+         Cv.Transc.ln (Cv.iterSum (x.map fun v => Cv.Transc.exp (v - m))) + m)) := rfl
 
 /-- `logmeanexp` as the source computes it. -/
 theorem logmeanexp_src (isNaN : α → Bool) (nan : α) (x : List α) :
@@ -60,12 +62,17 @@ theorem iterSum_shifted_eq_of (h0 : ∀ a : α, (-0 : α) + Cv.Transc.exp a = 0 
     simp only [List.map_cons, List.foldl_cons]
     rw [h0]
 
+/-- `logsumexp` is the model `logsumexpE` for EVERY input (the empty case is decided before the sum is formed, so no hypothesis on
+the input is needed any more; `h0` is only used on a non-empty input). -/
 theorem logsumexp_eq_of (h0 : ∀ a : α, (-0 : α) + Cv.Transc.exp a = 0 + Cv.Transc.exp a)
-    (isNaN : α → Bool) (nan : α) (x : List α) (hx : x ≠ []) :
-    Cv.Src.C04Loops.logsumexp isNaN nan x = logsumexpL isNaN nan x := by
-  rw [logsumexp_src]
-  unfold logsumexpL
-  simp only [iterSum_shifted_eq_of h0 _ x hx]
+    (isNaN : α → Bool) (nan : α) (ninf : α) (x : List α) :
+    Cv.Src.C04Loops.logsumexp isNaN nan ninf x = logsumexpE isNaN nan ninf x := by
+  cases x with
+  | nil => rfl
+  | cons a l =>
+    rw [logsumexp_src]
+    unfold logsumexpE logsumexpL
+    simp only [List.isEmpty_cons, Bool.false_eq_true, if_false, iterSum_shifted_eq_of h0 _ (a :: l) (by simp)]
 
 theorem logmeanexp_eq_of (h0 : ∀ a : α, (-0 : α) + Cv.Transc.exp a = 0 + Cv.Transc.exp a)
     (isNaN : α → Bool) (nan : α) (x : List α) (hx : x ≠ []) :
@@ -74,14 +81,11 @@ theorem logmeanexp_eq_of (h0 : ∀ a : α, (-0 : α) + Cv.Transc.exp a = 0 + Cv.
   unfold logmeanexpL
   simp only [iterSum_shifted_eq_of h0 _ x hx]
 
-/-- Empty input: the source takes `ln` of the seed `-0.0`, the model of `0`. -/
-theorem logsumexp_nil (hln : Cv.Transc.ln (-0 : α) = Cv.Transc.ln (0 : α)) (isNaN : α → Bool) (nan : α) :
-    Cv.Src.C04Loops.logsumexp isNaN nan [] = logsumexpL isNaN nan [] := by
-  rw [logsumexp_src]
-  unfold logsumexpL shiftedExpSum Cv.iterSum
-  simp only [List.map_nil, List.foldl_nil]
-  rw [hln]
+/-- Empty input (F55): `f64::NEG_INFINITY`, without any hypothesis. -/
+theorem logsumexp_nil (isNaN : α → Bool) (nan : α) (ninf : α) :
+    Cv.Src.C04Loops.logsumexp isNaN nan ninf [] = ninf := rfl
 
+/-- Empty input of `logmeanexp` (unchanged by F55): the source takes `ln` of `-0.0 / 0`, the model of `0 / 0`. -/
 theorem logmeanexp_nil (hln : Cv.Transc.ln ((-0 : α) / ((0 : Nat) : α)) = Cv.Transc.ln ((0 : α) / ((0 : Nat) : α)))
     (isNaN : α → Bool) (nan : α) :
     Cv.Src.C04Loops.logmeanexp isNaN nan [] = logmeanexpL isNaN nan [] := by
